@@ -31,6 +31,7 @@ const prelude = `(set-option :produce-models true)
 (assert (forall ((x Int) (k Int)) (! (and (<= 0 (band x k)) (<= (band x k) k) (=> (pow2 k) (or (= (band x k) 0) (= (band x k) k)))) :pattern ((band x k)))))
 (assert (forall ((x Int) (k Int)) (! (=> (>= x 0) (and (<= 0 (bandnot x k)) (<= (bandnot x k) x))) :pattern ((bandnot x k)))))
 (assert (forall ((x Int) (k Int)) (! (=> (>= x 0) (>= (bor x k) k)) :pattern ((bor x k)))))
+(assert (forall ((x Int) (k Int)) (! (=> (pow2 k) (= (bor x k) (ite (= (band x k) k) x (+ x k)))) :pattern ((bor x k)))))
 ; string identity by content: sid(arr, lo, hi)
 (declare-fun sid ((Array Int Int) Int Int) Int)
 (declare-fun sidlen (Int) Int)
